@@ -8,7 +8,6 @@ setting `strict` to False.
 """
 from contextlib import contextmanager
 from io import StringIO, TextIOWrapper
-from itertools import tee
 from typing import Iterator, List, Optional, TextIO, Tuple, Union, cast
 
 from fs.base import FS
@@ -48,22 +47,19 @@ def _detect_ssc(
                 return (file, True)
             elif suffix == "sm":
                 return (file, False)
-        parser = parse_msd(file=file, ignore_stray_text=not strict)
-    else:
-        file, peek_file = [StringIO("".join(f)) for f in tee(file)]
-        parser = parse_msd(
-            string="".join(peek_file),
-            ignore_stray_text=not strict,
-        )
+
+    # Peeking at the first property consumes the stream (and open files
+    # aren't instances of `typing.TextIO`, so they were never rewound):
+    # read it into memory and hand back a fresh stream instead
+    contents = "".join(file)
+    file = StringIO(contents)
+    parser = parse_msd(string=contents, ignore_stray_text=not strict)
 
     # Check if the first property is an SSC version
     try:
         first_param = next(parser)
     except StopIteration:
         return (file, False)
-
-    if isinstance(file, TextIO):
-        file.seek(0)
 
     return (file, first_param.key is not None and first_param.key.upper() == "VERSION")
 
